@@ -147,7 +147,9 @@ def oracleC17gas (cfg : Cfg) (bytes : List Nat) (d : Dump) : List String :=
     let maxCost := ((v.zip g).map (fun (c, x) => if c > 0 then x else 0)).foldl max 0
     let slack := if d.errs.isEmpty then 8 else maxCost
     charged.sum > cfg.gasLimit + slack)
-  if over && !(d.errs.any (fun (_, n) => n == "GasLimitExceeded")) then ["C17-gas-exhaustion-not-surfaced"] else []
+  -- the same bound is C03's "no thread continues once the minimum gas it has consumed exceeds the limit"
+  (if over && !(d.errs.any (fun (_, n) => n == "GasLimitExceeded")) then ["C17-gas-exhaustion-not-surfaced"] else []) ++
+  (if over then ["C03-thread-ran-past-gas-limit"] else [])
 
 /-- C17 (single run): errors are located inside the code; strict mode with errors fails. -/
 def oracleC17single (bytes : List Nat) (d : Dump) : List String :=
